@@ -22,9 +22,10 @@ Open Scope list_scope.
    7 rendering an error built from the position: no panic, and exactly the expected layout - line
      number, that line's text, marker under the column;
    8 rendering an error built from the span (off, b): no panic, and it shows them (Spec.span_shows).
-   fx selects the model of Error::new_from_span: false = the code as shipped, true = with
-   fixes/C10-1-continued-line-visualize.patch (the driver probes which one the tree is). *)
-Definition C10_statement (fx : bool) : Prop :=
+   fx selects the model of Error::new_from_span (ErrorFmt.fixes): fix_continued = with
+   fixes/C10-1-continued-line-visualize.patch, fix_eoi_line = with fixes/C10-2-empty-span-at-end-line.patch;
+   fixes_none = the code as first shipped (the driver probes which of the four states the tree is in). *)
+Definition C10_statement (fx : fixes) : Prop :=
   forall (s : str) (off : nat), boundary s off ->
     let p := before s off in
     let q := after s off in
@@ -40,12 +41,12 @@ Definition C10_statement (fx : bool) : Prop :=
        lines s (off, b) = Ok (map (text_of s) (lines_meeting s off b)) /\
        span_render_ok fx p (mid s off b) (after s b)).
 
-(* The full statement is FALSE of the code (four classes of renderings as shipped, three with the
-   patch: K2 is the class the patch removes; see Spec.KnownClass_pos / KnownClass_span and the
-   witnesses below).  What is proved is the same statement with clauses 7
+(* The full statement is FALSE of the code (four classes of renderings as shipped; K2 is removed by
+   the first patch, K4 by the second; K1 and K3 remain; see Spec.KnownClass_pos / KnownClass_span and
+   the witnesses below).  What is proved is the same statement with clauses 7
    and 8 restricted to the complement of the decidable known classes - and, for ALL inputs (known
    classes included), that rendering never panics. *)
-Definition C10_statement_outside_known_classes (fx : bool) : Prop :=
+Definition C10_statement_outside_known_classes (fx : fixes) : Prop :=
   forall (s : str) (off : nat), boundary s off ->
     let p := before s off in
     let q := after s off in
@@ -63,7 +64,7 @@ Definition C10_statement_outside_known_classes (fx : bool) : Prop :=
        (KnownClass_span fx p (mid s off b) (after s b) = false -> span_render_ok fx p (mid s off b) (after s b)) /\
        (forall msg, exists out, render_span fx s (off, b) msg = Ok out)).
 
-(* for the shipped AND for the patched model; with fx = true the class K2 is empty (C10_K2_empty_when_patched) *)
+(* for all four states of the tree; a repaired class is empty (C10_K2_empty_when_patched, C10_K4_empty_when_patched) *)
 Theorem C10_outside_known_classes : forall fx, C10_statement_outside_known_classes fx.
 Proof.
   intros fx s off Hb p q. subst p q.
@@ -112,41 +113,65 @@ Proof.
   exists [a_; CR], []. split; [reflexivity|]. intros H. destruct (H []) as ([|] & H1 & H2); [vm_compute in H1; discriminate|vm_compute in H2; discriminate].
 Qed.
 
-(* shipped code (fx = false): K2 "\nab\ncd" span 0..2 (raw continued line), K3 "ab\ncd" span 0..3 (following
-   line shown, labelled 1), K4 "ab" span 2..2 (no text, marker at column 1), and K1 again for a span: "a\rb" span 2..3 *)
-Definition span_refuted_on (fx : bool) (ws : list (str * str * str)) : Prop :=
+(* witnesses: K2 "\nab\ncd" span 0..2 (raw continued line), K3 "ab\ncd" span 0..3 (following line shown,
+   labelled 1), K4 "ab" span 2..2 (no text, marker at column 1), and K1 for a span: "a\rb" span 2..3 *)
+Definition wK2 : str * str * str := ([], [LF; a_], [b_; LF; c_; d_]).
+Definition wK3 : str * str * str := ([], [a_; b_; LF], [c_; d_]).
+Definition wK4 : str * str * str := ([a_; b_], [], []).
+Definition wK1 : str * str * str := ([a_; CR], [b_], []).
+Definition span_refuted_on (fx : fixes) (ws : list (str * str * str)) : Prop :=
   forall w, In w ws -> let '(p, m, q) := w in KnownClass_span fx p m q = true /\ ~ span_render_ok fx p m q.
-Definition C10_span_refuted_statement : Prop :=
-  span_refuted_on false [ ([], [LF; a_], [b_; LF; c_; d_]); ([], [a_; b_; LF], [c_; d_]); ([a_; b_], [], []); ([a_; CR], [b_], []) ].
 Lemma span_refute fx p m q :
   (forall out, render_span fx (p ++ m ++ q) (blen p, blen p + blen m) [] = Ok out -> span_shows p m q [] out = false) ->
   ~ span_render_ok fx p m q.
 Proof. intros Hf H. destruct (H [] eq_refl) as (out & E & S). rewrite (Hf out E) in S. discriminate. Qed.
-Theorem C10_span_refuted : C10_span_refuted_statement.
-Proof.
-  intros w Hw. cbn [In] in Hw.
-  destruct Hw as [<-|[<-|[<-|[<-|[]]]]]; (split; [reflexivity|]); apply span_refute; intros out E;
-    vm_compute in E; inversion E; subst out; vm_compute; reflexivity.
-Qed.
+Ltac refute_all :=
+  intros w Hw; cbn [In] in Hw;
+  repeat (destruct Hw as [<-|Hw]; [split; [reflexivity|]; apply span_refute; intros out E;
+                                   vm_compute in E; inversion E; subst out; vm_compute; reflexivity|]);
+  destruct Hw.
 
-(* patched code (fx = true): K1, K3 and K4 remain; the K2 witness now renders correctly and the class is empty *)
+(* the code as first shipped: all four classes *)
+Definition C10_span_refuted_statement : Prop := span_refuted_on fixes_none [wK2; wK3; wK4; wK1].
+Theorem C10_span_refuted : C10_span_refuted_statement.
+Proof. refute_all. Qed.
+
+(* the three patched states: exactly the unrepaired classes remain *)
 Definition C10_span_refuted_patched_statement : Prop :=
-  span_refuted_on true [ ([], [a_; b_; LF], [c_; d_]); ([a_; b_], [], []); ([a_; CR], [b_], []) ].
+  span_refuted_on {| fix_continued := true; fix_eoi_line := false |} [wK3; wK4; wK1] /\
+  span_refuted_on {| fix_continued := false; fix_eoi_line := true |} [wK2; wK3; wK1] /\
+  span_refuted_on fixes_all [wK3; wK1].
 Theorem C10_span_refuted_patched : C10_span_refuted_patched_statement.
+Proof. split; [|split]; refute_all. Qed.
+
+(* a patch only removes cases from the known classes; and the class it repairs is empty: on its
+   witness the rendering is now correct *)
+Definition C10_known_classes_shrink_statement : Prop :=
+  forall fx p m q, KnownClass_span fx p m q = true -> KnownClass_span fixes_none p m q = true.
+Theorem C10_known_classes_shrink : C10_known_classes_shrink_statement.
 Proof.
-  intros w Hw. cbn [In] in Hw.
-  destruct Hw as [<-|[<-|[<-|[]]]]; (split; [reflexivity|]); apply span_refute; intros out E;
-    vm_compute in E; inversion E; subst out; vm_compute; reflexivity.
+  intros fx p m q. unfold KnownClass_span. cbn [fixes_none fix_continued fix_eoi_line negb andb]. rewrite !orb_true_iff.
+  intros [[[H|H]|H]|H]; [tauto| |tauto|].
+  - destruct (fix_continued fx); [discriminate|]. cbn [negb andb] in H. tauto.
+  - destruct (fix_eoi_line fx); [discriminate|]. cbn [negb andb] in H. tauto.
 Qed.
 Definition C10_K2_empty_when_patched_statement : Prop :=
-  (forall p m q, KnownClass_span true p m q = true -> KnownClass_span false p m q = true) /\
-  KnownClass_span true [] [LF; a_] [b_; LF; c_; d_] = false /\
-  span_render_ok true [] [LF; a_] [b_; LF; c_; d_].
+  forall fx, fix_continued fx = true ->
+    let '(p, m, q) := wK2 in KnownClass_span fx p m q = false /\ span_render_ok fx p m q.
 Theorem C10_K2_empty_when_patched : C10_K2_empty_when_patched_statement.
 Proof.
-  split; [|split; [reflexivity|apply span_render_correct; reflexivity]].
-  intros p m q. unfold KnownClass_span. cbn [negb andb]. rewrite !orb_true_iff.
-  intros [[[H|H]|H]|H]; [tauto|discriminate|tauto|tauto].
+  intros [fc fe] H. cbn in H. subst fc. unfold wK2.
+  assert (K : KnownClass_span {| fix_continued := true; fix_eoi_line := fe |} [] [LF; a_] [b_; LF; c_; d_] = false) by (destruct fe; reflexivity).
+  split; [exact K|apply span_render_correct; exact K].
+Qed.
+Definition C10_K4_empty_when_patched_statement : Prop :=
+  forall fx, fix_eoi_line fx = true ->
+    let '(p, m, q) := wK4 in KnownClass_span fx p m q = false /\ span_render_ok fx p m q.
+Theorem C10_K4_empty_when_patched : C10_K4_empty_when_patched_statement.
+Proof.
+  intros [fc fe] H. cbn in H. subst fe. unfold wK4.
+  assert (K : KnownClass_span {| fix_continued := fc; fix_eoi_line := true |} [a_; b_] [] [] = false) by (destruct fc; reflexivity).
+  split; [exact K|apply span_render_correct; exact K].
 Qed.
 
 Definition C10_statement_refuted_statement : Prop := forall fx, ~ C10_statement fx.
@@ -176,9 +201,9 @@ Example C10_ex_lines_span :
   lines_span [a_; b_; LF; c_; d_; LF; 101%N; 102%N; 103%N; 104%N] (1, 9) = Ok [(0, 3); (3, 6); (6, 10)].
 Proof. vm_compute. reflexivity. Qed.
 Example C10_ex_render_span_shows :
-  exists out, render_span false [a_; b_; LF; c_; d_; LF; 101%N; 102%N; 103%N; 104%N] (1, 9) (lit "m") = Ok out /\
+  exists out, render_span fixes_none [a_; b_; LF; c_; d_; LF; 101%N; 102%N; 103%N; 104%N] (1, 9) (lit "m") = Ok out /\
               span_shows [a_] [b_; LF; c_; d_; LF; 101%N; 102%N; 103%N] [104%N] (lit "m") out = true /\
-              KnownClass_span false [a_] [b_; LF; c_; d_; LF; 101%N; 102%N; 103%N] [104%N] = false.
+              KnownClass_span fixes_none [a_] [b_; LF; c_; d_; LF; 101%N; 102%N; 103%N] [104%N] = false.
 Proof. eexists. split; [vm_compute; reflexivity|]. split; vm_compute; reflexivity. Qed.
 (* "a\txbc" offset 2 (error.rs test underline_with_tabs): the tab is kept in the marker row *)
 Example C10_ex_render_pos :
@@ -193,5 +218,7 @@ Print Assumptions C10_span_get_merge.
 Print Assumptions C10_K1_refuted.
 Print Assumptions C10_span_refuted.
 Print Assumptions C10_span_refuted_patched.
+Print Assumptions C10_known_classes_shrink.
 Print Assumptions C10_K2_empty_when_patched.
+Print Assumptions C10_K4_empty_when_patched.
 Print Assumptions C10_statement_refuted.
